@@ -33,6 +33,7 @@ type c15Act struct {
 	SeqRef string `json:"s,omitempty"` // cur, stale, wrong, zero
 	Wait   int    `json:"w,omitempty"`
 	Role   string `json:"r,omitempty"` // scripted step: "caller" / "callee" = first session of the p2p topic's first / second user
+	Fail   bool   `json:"fail,omitempty"` // the message write this act causes (acceptance / ending of the call) fails in the store
 }
 
 type c15Prog struct {
@@ -91,6 +92,15 @@ func genC15(rt *rapid.T) c15Prog {
 		}
 		p.Acts = append(merged, p.Acts[ri:]...)
 	}
+	// store failures at the writes that record acceptance and ending (drawn last)
+	if rapid.IntRange(0, 3).Draw(rt, "faults") == 0 {
+		for i := range p.Acts {
+			switch p.Acts[i].Kind {
+			case "ev", "leave", "disc", "wait":
+				p.Acts[i].Fail = rapid.IntRange(0, 2).Draw(rt, "fail") == 0
+			}
+		}
+	}
 	return p
 }
 
@@ -107,6 +117,7 @@ type c15Call struct {
 	Since     time.Duration
 	Accepted  bool
 	End       string // "" while alive
+	EndLost   bool   // the store write of the ending failed (injected): the history has no ending
 }
 
 type c15Exp struct {
@@ -170,6 +181,10 @@ func runC15(t *testing.T, sched simrt.Schedule, prog c15Prog) ([]Violation, RunS
 		}
 		endCall := func(cl *c15Call, kind string) {
 			simrt.Probe("c15.end_" + kind)
+			if f := simStore.Fault; f != nil && f.Fired {
+				cl.EndLost = true
+				simrt.Probe("fault.store_err")
+			}
 			cl.End = kind
 			delete(live, cl.Topic)
 			ended++
@@ -613,11 +628,16 @@ func runC15(t *testing.T, sched simrt.Schedule, prog c15Prog) ([]Violation, RunS
 					continue
 				}
 				op.Isolated = true
+				if a.Fail {
+					simStore.Fault = &faultPlan{FailAt: 1, FailMethod: "MessageSave"}
+					simrt.Probe("fault.store_armed")
+				}
 				w.setOps(map[int][]*Op{c.Idx: {op}})
 				if r := w.rt.Run(500*time.Millisecond, nil); r != simrt.RunQuiescent {
 					return append(out, vio("C14", "livelock", "run result %d", r))
 				}
 				w.Enabled(true)
+				simStore.Fault = nil
 			}
 		}
 		// everybody hangs up by leaving; then the history must show one ending per call
@@ -704,7 +724,13 @@ func runC15(t *testing.T, sched simrt.Schedule, prog c15Prog) ([]Violation, RunS
 				}
 			}
 			for seq := range inv {
-				if n := len(endings[seq]); n != 1 {
+				lost := false
+				for _, cl := range all {
+					if cl.Topic == topic && cl.Seq == seq && (cl.EndLost || cl.End == "?") {
+						lost = true
+					}
+				}
+				if n := len(endings[seq]); n != 1 && !(lost && n == 0) {
 					out = append(out, vio("C15", fmt.Sprintf("call-ended-%d-times", n), "topic %s call %d has %d endings in the store: %v (acceptances %v)", topic, seq, n, endings[seq], accepts[seq]))
 				}
 				if n := len(accepts[seq]); n > 1 {
